@@ -19,6 +19,7 @@ def reader(ctx, P, module=False):
     _ensure(ctx, P + "/reader-unbuffered", lambda n: c17.rule_unbuffered(ctx, R=n))
     _ensure(ctx, P + "/reader-whole-request", lambda n: c17.rule_whole_request(ctx, R=n))
     _ensure(ctx, P + "/reader-no-address-veto", lambda n: c17.rule_no_address_veto(ctx, R=n))
+    _ensure(ctx, P + "/reader-style-cache", lambda n: c17.rule_style_cache(ctx, R=n))
     if module:
         _ensure(ctx, P + "/module-read-verbatim", lambda n: c14.rule_process_read_verbatim(ctx, R=n))
 
@@ -98,3 +99,4 @@ def destination(ctx, P):
     from rules import c09
     _ensure(ctx, P + "/destination/seek-targets", lambda n: c09.rule_seek_targets(ctx, R=n))
     _ensure(ctx, P + "/destination/save-restore", lambda n: c09.rule_save_restore(ctx, R=n))
+    _ensure(ctx, P + "/destination/append-flush", lambda n: c09.rule_append_flush(ctx, R=n))
